@@ -10,7 +10,7 @@ mod error;
 mod named_node;
 mod parse;
 
-use crate::dag::{DagLike, MaxSharing};
+use crate::dag::{DagLike, InternalSharing};
 use crate::jet::Jet;
 use crate::node::{self, CommitNode, NoWitness};
 use crate::types;
@@ -174,7 +174,9 @@ impl Forest {
         let mut program_lines = vec![];
         // Pass 1: compute string data for every node
         for root in self.roots.values() {
-            for data in root.as_ref().post_order_iter::<MaxSharing<_>>() {
+            // Children are referred to by the name of the child node object, so every
+            // node object needs its own line, even if it equals another one.
+            for data in root.as_ref().post_order_iter::<InternalSharing>() {
                 let node = data.node;
                 let name = node.name();
                 let mut expr_str = match node.inner() {
